@@ -342,6 +342,31 @@ func runC13World(w *World, tier string, spec *crashSpec, out *c13Run) (bool, int
 		}
 		w.Fail("C13", "ceremony-stalled-after-crash/"+ws, fmt.Sprintf("with the crash(es) the ceremony does not reach the outcome of the crash-free run: states %v, pending ops %v, victim=%d, n=%d t=%d", states(c, round), pendingTypes(w), victim, n, t))
 	}
+	if !w.Failed() && done {
+		// "the same outcome as without the crash": without a crash every node that collects the
+		// batch publishes its reconstruction (a node is idle again only after its publication was
+		// accepted by the board), and every store ends up with an entry by every participant
+		var missing []string
+		for _, i := range members {
+			found := false
+			for _, m := range w.Board.Msgs {
+				if m.Event == string(types.SignatureReconstructed) && m.DkgRoundID == round && m.SenderAddr == w.Nodes[i].Name && w.Board.Injected[m.Offset] == nil {
+					found = true
+					break
+				}
+			}
+			if !found {
+				missing = append(missing, w.Nodes[i].Name)
+			}
+		}
+		if len(missing) > 0 {
+			ws := "no-crash-fired"
+			if out != nil && len(out.windows) > 0 {
+				ws = strings.Join(out.windows, " ; ")
+			}
+			w.Fail("C13", "reconstruction-never-published/"+ws, fmt.Sprintf("the round is idle and the batch stored everywhere, but the board holds no reconstruction published by %v (victim=%d): without the crash every node publishes its own", missing, victim))
+		}
+	}
 	for _, nd := range w.Nodes {
 		if len(nd.Panics) > 0 {
 			w.Fail("C13", "panic-after-restart", strings.Join(nd.Panics, "; "))
